@@ -4,7 +4,7 @@ set -e
 cd "$(dirname "$0")"
 export CARGO_NET_OFFLINE=true
 python3 tools/extract_consts.py
-(cd lean && lake build FluentModel FluentProofs fvmodel)
+(cd lean && lake build)
 cp /repo/Cargo.lock harness/Cargo.lock 2>/dev/null || true
 (cd harness && cargo build --offline)
 echo "setup ok"
